@@ -40,6 +40,9 @@ CLAIMS = {
     "C18": ("other",
             "P: kabsch_rotation_matrix executed on symbolic N x 3 point sets with the SVD as an assumed contract: covariance A^T B, R = v diag(1,1,sigma) w with sigma = -1 exactly when det v det w < 0, R orthogonal, det R = +1, trace(R^T A^T B) = s0+s1+sigma s2 (explicit certificates); reorient_points / rmsd_points / Dimer.calculate_transform dataflow through a modular contract. L: the lemmas from which optimality over proper rotations follows (rmsd vs trace, cyclic trace, |T_ii| <= 1, improper trace bound). The composition of the lemmas into optimality is on paper, floats are reals: level 'other'. B: optimality against Horn's quaternion eigenvalue and 4009 sampled proper rotations per pair, generic/planar/collinear sets, noise and reflections.",
             "SVD contract (numpy.linalg.svd), Kabsch argument composed on paper from the proved lemmas, floats as reals"),
+    "C04": ("other",
+            "P: the unwrapping loop of unit_cell_molecules executed on symbolic instances (three unit-cell atoms, symbolic integer edge cells, both predecessor orientations, csgraph traversal computed for the concrete topology): for every stored edge the unwrapped atoms sit at their bonding image, all arrays given to the molecule are indexed by one node order sorted by parent site, the recentring translation is an integer lattice vector placing the centre of mass in [0,1). F: edge conventions of unit_cell_connectivity and the shape-safe comparison in symmetry_unique_molecules. The partition / wholeness / count clauses are graph-theoretic facts about scipy's csgraph and KD-tree results: bounded stand-in on generated molecular crystals (40 seeded settings quick, all 530 thorough; equal and different molecules, any atom order, sites listed as symmetry images, any placement relative to the cell).",
+            "scipy csgraph / cKDTree assumed; instance-level unwrapping proof; floats as reals; centre of mass above -7 cells"),
 }
 
 NA_PENDING = "check not built yet in this session (see DESIGN.md section 8 build order)"
